@@ -180,6 +180,37 @@ Theorem C07_band_monotone_normal_unconditional : forall k b q qA, known b -> 0 <
   nondecr (band_of (run_exp RNum NPhi sqrt k b q qA) 2).
 Proof. exact band_monotone_unconditional. Qed.
 
+(* --- tie to the source: the formula / decision methods of pyhf/infer/calculators.py are translated to PV.gen.AsymptGen on every
+   run (harness/props/c07.py:extract); the translated definitions ARE the transcription (Asympt.v) the theorems above are about --- *)
+Require Import PV.gen.AsymptGen PV.TieAsympt.
+Theorem C07_source_is_model_cdf : forall (N : Num) Phi sq (d : dist N) value, gen_cdf N Phi sq d value = cdf N Phi d value.
+Proof. exact tie_cdf. Qed.
+Theorem C07_source_is_model_pvalue : forall (N : Num) Phi sq (d : dist N) value, gen_pvalue N Phi sq d value = pvalue N Phi d value.
+Proof. exact tie_pvalue. Qed.
+Theorem C07_source_is_model_expected_value : forall (N : Num) Phi sq (d : dist N) nsigma,
+  gen_expected_value N Phi sq d nsigma = expected_value N d nsigma.
+Proof. exact tie_expected_value. Qed.
+Theorem C07_source_is_model_distributions : forall (N : Num) Phi sq sqrtqmuA_v b,
+  gen_distributions N Phi sq sqrtqmuA_v b = distributions N sqrtqmuA_v b.
+Proof. exact tie_distributions. Qed.
+Theorem C07_source_is_model_true_case : forall (N : Num) Phi sq s sA, gen_true_case N Phi sq s sA = true_case N s sA.
+Proof. exact tie_true_case. Qed.
+Theorem C07_source_is_model_false_case : forall (N : Num) Phi sq s sA, gen_false_case N Phi sq s sA = false_case N s sA.
+Proof. exact tie_false_case. Qed.
+Theorem C07_source_is_model_teststatistic : forall (N : Num) Phi sq k qmu_v qmuA_v,
+  gen_teststatistic N Phi sq k qmu_v qmuA_v = teststatistic N sq k qmu_v qmuA_v.
+Proof. exact tie_teststatistic. Qed.
+Theorem C07_source_is_model_teststatistic_branch : forall (N : Num) Phi sq qmu_v qmuA_v,
+  fst (gen_teststatistic N Phi sq KQtilde qmu_v qmuA_v)
+  = if nleb N (sq qmu_v) (sq qmuA_v) then gen_true_case N Phi sq (sq qmu_v) (sq qmuA_v) else gen_false_case N Phi sq (sq qmu_v) (sq qmuA_v).
+Proof. exact tie_teststatistic_branch. Qed.
+Theorem C07_source_is_model_pvalues : forall (N : Num) Phi sq teststat (sb b : dist N),
+  gen_pvalues N Phi sq teststat sb b = pvalues N Phi teststat sb b.
+Proof. exact tie_pvalues. Qed.
+Theorem C07_source_is_model_expected_pvalues : forall (N : Num) Phi sq (sb b : dist N),
+  gen_expected_pvalues N Phi sq sb b = expected_pvalues N Phi sb b.
+Proof. exact tie_expected_pvalues. Qed.
+
 Print Assumptions C07_clsb_q_computed.
 Print Assumptions C07_clb_q_computed.
 Print Assumptions C07_clsb_qtilde_low_computed.
@@ -229,3 +260,13 @@ Print Assumptions C07_normal_cdf_mills_unconditional.
 Print Assumptions C07_normal_cdf_logconcave_unconditional.
 Print Assumptions C07_ordering_normal_unconditional.
 Print Assumptions C07_band_monotone_normal_unconditional.
+Print Assumptions C07_source_is_model_cdf.
+Print Assumptions C07_source_is_model_pvalue.
+Print Assumptions C07_source_is_model_expected_value.
+Print Assumptions C07_source_is_model_distributions.
+Print Assumptions C07_source_is_model_true_case.
+Print Assumptions C07_source_is_model_false_case.
+Print Assumptions C07_source_is_model_teststatistic.
+Print Assumptions C07_source_is_model_teststatistic_branch.
+Print Assumptions C07_source_is_model_pvalues.
+Print Assumptions C07_source_is_model_expected_pvalues.
